@@ -13,7 +13,7 @@ RULE = ('trees parse(src) of G1 programs (all node kinds; optional parts present
         'per-node metadata - positions, literal-token table, sourcepath, attached comments - excluded) must be '
         'exactly what Walker().walk yields, each once (by identity), each after its parent and before its own '
         'descendants (pre-order: a node\'s descendants are contiguous after it), identically on repeated walks and '
-        'from a fresh Walker; filter(tree, c) == [n for n in walk(tree) if c(n)] for generated predicates; '
+        'from a fresh Walker, also when two traversals of one Walker object are interleaved or nested; filter(tree, c) == [n for n in walk(tree) if c(n)] for generated predicates; '
         'extract(tree, c, skip=k) returns the k-th match or raises TypeError exactly when there is none. '
         'non-trivial = tree with >= 10 nodes and >= 5 kinds; distinct by source text')
 ASSUMPTIONS = ['attached Comments nodes are metadata (children() is about syntactic sub-nodes); their reachability is '
@@ -112,6 +112,27 @@ def check_tree(acc, opens, src, tree, preds):
     if again != ids or fresh != ids:
         acc.fail(None, case, {'bucket': 'order_not_repeatable'}, opens)
         return walked
+    # two traversals of one Walker object alive at the same time must not disturb each other
+    inter = []
+    for a, b in zip(w.walk(tree), w.walk(tree)):
+        inter.append((id(a), id(b)))
+    if inter != [(i, i) for i in ids]:
+        acc.fail(None, case, {'bucket': 'interleaved_walks_disturb_each_other', 'yielded': len(inter),
+                              'expected': len(ids)}, opens)
+        return walked
+    outer = []
+    for n in w.filter(tree, lambda n: True):
+        outer.append(id(n))
+        if len(outer) % 3 == 0:
+            try:
+                w.extract(n, lambda m: True)   # nested use inside the loop, possibly abandoned early
+            except TypeError:
+                pass
+            sum(1 for _ in w.walk(n))
+    if outer != ids:
+        acc.fail(None, case, {'bucket': 'nested_traversal_disturbs_outer_one', 'yielded': len(outer),
+                              'expected': len(ids)}, opens)
+        return walked
     # filter / extract
     for name, pred in preds:
         expect = [n for n in walked if pred(n)]
@@ -120,7 +141,10 @@ def check_tree(acc, opens, src, tree, preds):
             acc.fail(None, dict(case, predicate=name), {'bucket': 'filter_differs_from_walk_select', 'predicate': name,
                                                          'expected': len(expect), 'got': len(got)}, opens)
             return walked
-        for k in (0, 1, len(expect) - 1, len(expect), len(expect) + 1):
+        ks = set([0, 1, len(expect) - 1, len(expect), len(expect) + 1])
+        if len(expect) <= 60:
+            ks |= set(range(len(expect)))
+        for k in sorted(ks):
             if k < 0:
                 continue
             try:
